@@ -249,6 +249,14 @@ string mkval(uint64_t tag, uint32_t len, int fill) {
 std::vector<string> make_keyspace(Rng &r, int n) {
   std::set<string> ks;
   int style = (int)r.below(4);
+  // one keyspace in twelve uses long keys (0.3 - 3 KiB, long shared prefix): file metadata in the MANIFEST then runs to
+  // kilobytes per edit, so descriptor records cross 32 KiB block boundaries within a few flushes
+  if (r.below(12) == 0) {
+    string prefix(200 + r.below(800), 'P');
+    if (n > 40) n = 40;
+    while ((int)ks.size() < n) { char b[32]; snprintf(b, sizeof b, "/%05d/", (int)r.below(5000)); string k = prefix + b; k.append(r.below(2000), (char)('a' + r.below(26))); ks.insert(k); }
+    return std::vector<string>(ks.begin(), ks.end());
+  }
   while ((int)ks.size() < n) {
     int i = (int)ks.size();
     char b[96];
